@@ -247,3 +247,29 @@ void h_getters(void)
 	__CPROVER_assert(lha_decoder_get_length(&vg_da.d) == vg_da.d.stream_pos, "get_length returns the stream position");
 	VG_CANARY("getters");
 }
+
+/* C14 monitor, plain route (robust against changes of the loop's shape): from any state in which the stream
+   position is at most VG_GAP blocks ahead of the last announced block, check_progress_callback announces every
+   block up to the current one, one by one (the stub asserts the order), and ends with last_block == block.
+   The loop is unwound VG_GAP + 1 times with unwinding assertions: complete within the gap bound. */
+#ifndef VG_GAP
+#define VG_GAP 6
+#endif
+void h_progress_bounded(void)
+{
+	unsigned block, first;
+	vg_havoc();
+	__CPROVER_assume(DEC_SHAPE);
+	__CPROVER_assume(vg_da.d.progress_callback == vg_progress);
+	vg_cb_data = vg_da.d.progress_callback_data;
+	vg_cb_total = vg_da.d.total_blocks;
+	vg_cb_prev = vg_da.d.last_block;
+	first = vg_da.d.last_block;
+	vg_cb_calls = 0;
+	block = (unsigned) ((vg_da.d.stream_pos + vg_dtype.block_size - 1) / vg_dtype.block_size);
+	__CPROVER_assume(block - first <= VG_GAP);        /* unsigned distance: includes first == UINT_MAX (nothing announced yet) */
+	check_progress_callback(&vg_da.d);
+	__CPROVER_assert(vg_da.d.last_block == block && vg_cb_prev == block, "C14 monitor (bounded gap): every block up to the current one has been announced");
+	__CPROVER_assert(vg_cb_calls == block - first, "C14 monitor (bounded gap): exactly one call per newly reached block");
+	VG_CANARY("progress_bounded");
+}
